@@ -102,6 +102,8 @@ def chk_selection(inp):
     soft = numpy.round(rng.random((12, 12)) * 4) / 4.          # grey (non 0/1) masks: soft-edged pupils, half-transparent vanes
     half = pupil.circle(4, 8) * 0.5
     masks = [pupil.circle(5, 12, (1.5, -2)), (rng.random((9, 12)) > 0.4).astype(float), pupil.circle(4, 8), numpy.triu(numpy.ones((10, 10))), soft, half]
+    # the mask may be stored in any dtype (boolean / integer 0-1 masks are what comparisons and file readers produce)
+    masks += [pupil.circle(5, 12).astype(dt) for dt in ("int64", "uint8", "bool", "float32")] + [(rng.random((8, 8)) > 0.4)]
     for mask in masks:
         for n in (1, 2, 3, 4):
             if mask.shape[0] < n or mask.shape[1] < n:
@@ -141,6 +143,14 @@ def chk_fill(inp):
             if not numpy.allclose(got, want, rtol=0, atol=1e-12):
                 return {"message": "computeFillFactor is not the mean of mask[round(x):round(x+sp), round(y):round(y+sp)] (mask values %s)" % sorted(set(numpy.unique(mask).tolist()))[:5],
                         "observed": numpy.asarray(got).tolist(), "expected": want}
+    base = rng.random((12, 10)) > 0.3
+    for dt in ("bool", "int32", "int64", "uint8", "float32"):
+        mask = base.astype(dt)
+        for sp in (2, 3):
+            got = W.computeFillFactor(mask, pos, sp)
+            want = [base[py_round(x):py_round(x + sp), py_round(y):py_round(y + sp)].mean() for x, y in pos]
+            if not numpy.allclose(got, want, rtol=0, atol=1e-7):
+                return {"message": "computeFillFactor of a %s 0/1 mask is not the mean of the window (fraction of lit pixels)" % dt, "observed": numpy.asarray(got).tolist(), "expected": want}
     mask = (rng.random((12, 10)) > 0.3).astype(float)
     for sp in (2, 2.5, 3):
         got = W.computeFillFactor(mask, pos, sp)
